@@ -1,6 +1,7 @@
 package main
 
 import (
+	"fmt"
 	"sort"
 	"strings"
 
@@ -178,4 +179,82 @@ func runC01NewGroup(c *Ctx) {
 		}
 	}
 	c.Floor("O13", "DOM new-group verdicts", n, 1)
+}
+
+// runC01MaxOrientation (O14): a pod's request is the MAXIMUM of its main and init containers per resource; the fit
+// test compares that request with Idle. Every SetMaxResource of the resource types takes a quantity of its argument
+// only when it is LARGER than the receiver's (or the receiver has none): a swapped comparison turns the maximum into
+// a minimum for that dimension, the pod's request shrinks to the init container's, and more pods are bound to a node
+// than its extended resources allow.
+func runC01MaxOrientation(c *Ctx) {
+	fx := c.Fx
+	n := 0
+	for _, fn := range c.P.FuncsIn("pkg/scheduler/api/resource_info") {
+		if isTestdataOrMock(fn) || fn.Name() != "SetMaxResource" || fn.Parent() != nil || len(fn.Params) < 2 {
+			continue
+		}
+		c.Analysed(funcKey(fn))
+		for _, b := range fn.Blocks {
+			for _, in := range b.Instrs {
+				var val ssa.Value
+				switch x := in.(type) {
+				case *ssa.Store:
+					if rootParam(termOf(x.Addr)) != 0 {
+						continue
+					}
+					val = x.Val
+				case *ssa.MapUpdate:
+					if rootParam(termOf(x.Map)) != 0 {
+						continue
+					}
+					val = x.Value
+				default:
+					continue
+				}
+				vt := termOf(val)
+				// only copies of a quantity of the argument (directly, or the value of a range over one of its maps)
+				fromArg := rootParam(vt) == 1
+				if ex, isEx := val.(*ssa.Extract); isEx && !fromArg {
+					if nx, isNext := ex.Tuple.(*ssa.Next); isNext {
+						if rg, isRange := nx.Iter.(*ssa.Range); isRange && rootParam(termOf(rg.X)) == 1 {
+							fromArg = true
+						}
+					}
+				}
+				if !fromArg {
+					continue
+				}
+				n++
+				vs := vt.String()
+				oriented := func(s FactSet) bool {
+					_, ok := hasFact(s, func(ft Fact) bool {
+						if ft.T.Op == "extract" && ft.T.Name == "1" && !ft.Pol && len(ft.T.Args) == 1 && ft.T.Args[0].Op == "lookup" && rootParam(ft.T.Args[0].Args[0]) == 0 {
+							return true // the receiver has no such entry
+						}
+						if ft.T.Op != "bin" || len(ft.T.Args) != 2 {
+							return false
+						}
+						l, r := ft.T.Args[0].String(), ft.T.Args[1].String()
+						// the argument's quantity (or an amount computed from it) on one side only
+						inL, inR := strings.Contains(l, vs), strings.Contains(r, vs)
+						if inL == inR {
+							return false
+						}
+						switch ft.T.Name {
+						case ">", ">=":
+							return (ft.Pol && inL) || (!ft.Pol && inR)
+						case "<", "<=":
+							return (ft.Pol && inR) || (!ft.Pol && inL)
+						}
+						return false
+					})
+					return ok
+				}
+				ok := oriented(fx.FactsAt(in)) || fx.allPathsSatisfy(in, oriented)
+				c.Check(ok, "O14", "DOM", fmt.Sprintf("%s: %s is taken from the argument only when it is larger", funcKey(fn), trunc(vs, 60)), instrPos(in), "argument's quantity > receiver's (or receiver has none)",
+					"SetMaxResource copies "+trunc(vs, 80)+" without having established that it exceeds the receiver's quantity: the 'maximum' of main and init containers becomes a minimum for this dimension, the pod's request shrinks and the node is oversubscribed on it")
+			}
+		}
+	}
+	c.Floor("O14", "DOM conditional copies in SetMaxResource", n, 3)
 }
